@@ -117,7 +117,7 @@ func (c rendererContext) Get(name string) any {
 func (c rendererContext) ExpandTagArg() (string, error) {
 	args := c.TagArgs()
 	if strings.Contains(args, "{{") {
-		root, err := c.ctx.config.Compile(args, c.node.SourceLoc)
+		root, err := c.ctx.config.Compile(args, c.sourceLoc())
 		if err != nil {
 			return "", err
 		}
@@ -129,6 +129,18 @@ func (c rendererContext) ExpandTagArg() (string, error) {
 		return buf.String(), nil
 	}
 	return args, nil
+}
+
+// sourceLoc returns the location of the tag, or of the block, that is being rendered.
+func (c rendererContext) sourceLoc() parser.SourceLoc {
+	switch {
+	case c.node != nil:
+		return c.node.SourceLoc
+	case c.cn != nil:
+		return c.cn.SourceLoc
+	default:
+		return parser.SourceLoc{}
+	}
 }
 
 // RenderBlock renders a node.
@@ -156,7 +168,7 @@ func (c rendererContext) RenderFile(filename string, b map[string]any) (string, 
 	} else if err != nil {
 		return "", err
 	}
-	root, err := c.ctx.config.Compile(string(source), c.node.SourceLoc)
+	root, err := c.ctx.config.Compile(string(source), c.sourceLoc())
 	if err != nil {
 		return "", err
 	}
